@@ -3,7 +3,7 @@
      GPPPDecryptBase64  -> gppp_decrypt_b64   (with the code's base64 re-padding rule)
      GPPPDecryptBytes   -> gppp_decrypt_bytes
    and of the two functions of utils/encoding/utf16 they call:
-     EncodeUTF16LE      -> enc_utf16le_go     DecodeUTF16LE -> dec_utf16le_go (in R: see below)
+     EncodeUTF16LE      -> enc_utf16le_go     DecodeUTF16LE -> dec_utf16le_go
    Go standard library pieces are modelled, not verified, by the reference algorithms of Algo/
    (validated against the standard library by the ALGO check):
      []rune(s)                        -> go_runes (here: lenient UTF-8 decoding, an invalid byte is U+FFFD)
@@ -76,12 +76,14 @@ Definition go_runes (s : list N) : list N := go_runes_fuel (length s) s.
 Definition enc_utf16le_go (s : list N) : list N :=
   flat_map (fun u => [u mod 256; (u / 256) mod 256]) (utf16_encode (go_runes s)).
 
-(* for i := 0; i < len(b); i += 2 { utf16le[i/2] = uint16(b[i]) | uint16(b[i+1])<<8 } : an odd
-   length indexes past the end (panic).  GPPPDecryptBytes only calls it on an even length. *)
+(* utf16le := make([]uint16, len(b)/2)
+   for i := 0; i+1 < len(b); i += 2 { utf16le[i/2] = uint16(b[i]) | uint16(b[i+1])<<8 } : a trailing
+   odd byte is ignored (the loop bound was i < len(b), an index panic on odd lengths, until
+   /repo commit 6323136).  GPPPDecryptBytes only calls it on an even length. *)
 Fixpoint dec_units_go (b : list N) : R (list N) :=
   match b with
   | [] => Ok []
-  | [_] => Panic
+  | [_] => Ok []
   | lo :: hi :: r => let* us := dec_units_go r in Ok (N.lor lo (hi * 256) :: us)
   end.
 Definition dec_utf16le_go (b : list N) : R (list N) :=
